@@ -36,7 +36,8 @@ TEST_BUDGET = 512  # Bonferroni divisor: upper bound on the tests of one run
 GRID_K = 12  # chi-square grid: GRID_K x GRID_K cells of pooled quantiles
 MIN_BIN = 40  # cells with fewer pooled points are merged
 K_BATCH = 50  # bucket of the per-batch-maximum finding (accepted per batch)
-MAX_LATENT_DRAWS = 12_000_000  # per cell, harness guard (inconclusive)
+MAX_LATENT_DRAWS = 20_000_000  # per cell, harness guard (inconclusive)
+MAX_LATENT_DRAWS_ACC = 6_000_000  # same, accumulate_weights=True
 MAX_REF_DRAWS = 40_000_000  # per cell, harness guard (inconclusive)
 MAX_POPULATIONS = 4000
 
@@ -83,9 +84,11 @@ ASSUMPTIONS_B = [
     "the prior on the model bounds; their cells train on prior samples or "
     "on a wide blob (what the first trainings of a run see) as well as on "
     "narrow blobs",
-    f"a cell that would need more than {MAX_LATENT_DRAWS} latent draws or "
-    f"{MAX_REF_DRAWS} reference candidates is abandoned and counted "
-    "inconclusive (bounded by health)",
+    f"a cell that would need more than {MAX_LATENT_DRAWS} latent draws "
+    f"({MAX_LATENT_DRAWS_ACC} with accumulate_weights, whose population "
+    "loop re-concatenates all draws every batch; such cells use drawsize "
+    f">= 2000 for the same reason) or {MAX_REF_DRAWS} reference candidates "
+    "is abandoned and counted inconclusive (bounded by health)",
 ]
 
 
@@ -389,7 +392,7 @@ class _Recorder:
     computation: number of batches, candidates per batch, spread of the
     per-batch maximum weight."""
 
-    def __init__(self, fp):
+    def __init__(self, fp, budget):
         self.fp = fp
         self.draws = 0
         self.batches = 0
@@ -413,7 +416,7 @@ class _Recorder:
             z = draw(n)
             self.batches += 1
             self.draws += int(np.shape(z)[0])
-            if self.draws > MAX_LATENT_DRAWS:
+            if self.draws > budget:
                 raise _Inconclusive("latent-draw-budget")
             return z
 
@@ -585,7 +588,8 @@ def _run_flow_cell(case, out):
                 fp.training_data)
     order = np.argsort(train["logL"], kind="stable")
     worst = train[order[int(case["worst_rank"] * (len(order) - 1))]]
-    rec = _Recorder(fp)
+    rec = _Recorder(fp, MAX_LATENT_DRAWS_ACC if case["accumulate_weights"]
+                    else MAX_LATENT_DRAWS)
     parts, groups = [], []
     total = 0
     n_acc = 0.0
@@ -809,6 +813,11 @@ def cells(draw, forced=None):
         [50, 100, 200, 500, 1000, 2000, 5000]))
     case["drawsize"] = pick("drawsize", st.sampled_from(
         [2000, 1000, 5000, 10000, 20000, 2000, 500, 200]))
+    if acc:
+        # populate() re-concatenates the accumulated draws every batch
+        # (quadratic in the number of batches): a cost, not a distribution,
+        # matter - accumulating cells draw at least 2000 points at a time
+        case["drawsize"] = max(2000, case["drawsize"])
     # flow
     state = pick("state", st.sampled_from(["trained", "trained", "fresh"]))
     ftype = "realnvp" if proposal == "augmented" else draw(
